@@ -1,24 +1,35 @@
 #!/bin/sh
 # tools/mutants.sh [-t] <runs> <mutant.diff> <property>...
-# Applies a patch to /repo, optionally runs the baseline suite (-t), runs the quick checks of the
-# given properties with VERIF_RUNS=<runs>, prints one line per property, reverts /repo.
-cd /verif || exit 2
+# Sensitivity check in a scratch copy (outside /repo and /verif): applies the patch to a copy of
+# /repo, optionally runs the baseline suite there (-t), builds a copy of the harness against it and
+# runs the quick checks of the given properties with VERIF_RUNS=<runs>. One line per property.
+# The scratch copy is kept between calls for incremental builds; remove it with: tools/mutants.sh --clean
+SCR=${MUT_SCRATCH:-/tmp/txtpp-mut}
+if [ "$1" = "--clean" ]; then rm -rf "$SCR"; exit 0; fi
 TESTS=0
 if [ "$1" = "-t" ]; then TESTS=1; shift; fi
 RUNS=$1; PATCH=$(readlink -f "$2"); shift 2
-if [ -n "$(git -C /repo status --porcelain)" ]; then echo "refusing: /repo is dirty"; exit 2; fi
-trap 'git -C /repo checkout -- . ; git -C /repo clean -fdq src tests 2>/dev/null' EXIT INT TERM
-git -C /repo apply "$PATCH" || { echo "patch does not apply: $PATCH"; exit 2; }
+mkdir -p "$SCR"
+rsync -a --delete --exclude target /repo/ "$SCR/repo/"
+rsync -a --delete --exclude target --exclude target-cli --exclude build.log --exclude build-cli.log /verif/sim/ "$SCR/sim/"
+sed -i "s|path = \"/repo\"|path = \"$SCR/repo\"|" "$SCR/sim/Cargo.toml"
+cp /verif/known_findings.json "$SCR/known_findings.json"
 name=$(basename "$PATCH" .diff)
+(cd "$SCR/repo" && git checkout -q -- . && git apply "$PATCH") || { echo "$name patch does not apply"; exit 2; }
+export CARGO_NET_OFFLINE=true RUST_BACKTRACE=0
 if [ $TESTS = 1 ]; then
-    if (cd /repo && timeout 300 cargo test --workspace --no-fail-fast --offline >/dev/null 2>&1); then
+    if (cd "$SCR/repo" && timeout 300 cargo test --workspace --no-fail-fast --offline >/dev/null 2>&1); then
         echo "$name baseline-tests=pass"
     else
         echo "$name baseline-tests=FAIL"
     fi
 fi
+if ! (cd "$SCR/sim" && cargo build --release --offline >"$SCR/build.log" 2>&1); then
+    echo "$name harness build failed (see $SCR/build.log)"; exit 2
+fi
+(cd "$SCR/sim" && cargo build --release --offline --manifest-path "$SCR/repo/Cargo.toml" --bin txtpp --target-dir "$SCR/sim/target-cli" >"$SCR/build-cli.log" 2>&1)
 for p in "$@"; do
-    out=$(VERIF_RUNS=$RUNS ./check "$p" quick 2>&1); code=$?
+    out=$(cd "$SCR/sim" && VERIF_DIR="$SCR" VERIF_CLI="$SCR/sim/target-cli/release/txtpp" VERIF_RUNS=$RUNS ./target/release/txtpp-sim check "$p" quick 2>&1); code=$?
     cls=$(printf '%s\n' "$out" | grep '^VIOLATION' | sed 's/.*class=\([^ ]*\).*/\1/' | sort -u | tr '\n' ',')
     echo "$name $p exit=$code ${cls}"
 done
